@@ -100,7 +100,76 @@ func Run(d *fw.Driver, res *fw.Result, seed int64, thorough bool) error {
 	if err := c05.KeepaliveAfterHeal(d, res, seed+900); err != nil {
 		return err
 	}
+	// keepalive switched off but a timeout configured: the read deadline alone must notice a silent peer
+	base += 20
+	if err := silent(d, res, seed, pt{0, 100 * time.Millisecond}, "during-call", base); err != nil {
+		return err
+	}
+	base += 20
+	if err := silentAfterReconnect(res, seed, base); err != nil {
+		return err
+	}
 	return slowPeer(res)
+}
+
+// silentAfterReconnect: the first connection is reset; the second one completes the upgrade and then the
+// peer is silent from its first moment.  The client must notice within a bounded time and dial a third time.
+func silentAfterReconnect(res *fw.Result, seed int64, base int) error {
+	e, err := scen.NewEnv(seed+55, 0, jsonrpc.WithServerPingInterval(5*time.Second))
+	if err != nil {
+		return err
+	}
+	defer e.Close()
+	ctx, cancel := context.WithCancel(context.Background())
+	defer cancel()
+	const P, T = 20 * time.Millisecond, 150 * time.Millisecond
+	cl, closer, err := e.Client(ctx, jsonrpc.WithPingInterval(P), jsonrpc.WithTimeout(T), jsonrpc.WithReconnectBackoff(30*time.Millisecond, 60*time.Millisecond))
+	if err != nil {
+		return err
+	}
+	defer scen.WithTimeout(3*time.Second, closer)
+	sig := "peer silent right after a reconnect"
+	c := map[string]interface{}{"scenario": "silent-after-reconnect", "ping": P.String(), "timeout": T.String()}
+	if v, err := cl.Count(ctx, base+1); err != nil || v != base+1 {
+		return fmt.Errorf("warm-up call failed: %v", err)
+	}
+	e.PX.Cut(0, "rst")
+	// the second connection: let the upgrade through, then swallow everything without closing
+	deadline := time.Now().Add(3 * time.Second)
+	for time.Now().Before(deadline) && e.PX.Accepted() < 2 {
+		time.Sleep(200 * time.Microsecond)
+	}
+	if e.PX.Accepted() < 2 {
+		res.Add(fw.Finding{Kind: "monitor", Signature: sig + " no redial", Detail: "the client did not redial after the reset", Case: c})
+		return nil
+	}
+	time.Sleep(2 * time.Millisecond)
+	e.PX.Cut(2, "blackhole")
+	t0 := time.Now()
+	bound := 4*T + 200*time.Millisecond
+	for time.Since(t0) < bound+time.Second && e.PX.Accepted() < 3 {
+		time.Sleep(time.Millisecond)
+	}
+	if e.PX.Accepted() < 3 {
+		res.Add(fw.Finding{Kind: "monitor", Signature: sig + " no reconnect", Detail: fmt.Sprintf("the client did not start reconnecting within %v of the peer falling silent on the freshly re-established connection", bound+time.Second), Case: c})
+	} else {
+		ok := false
+		for w := 0; w < 300 && !ok; w++ {
+			cctx, cc := context.WithTimeout(ctx, time.Second)
+			v, err := cl.Count(cctx, base+2)
+			cc()
+			ok = err == nil && v == base+2
+			if !ok {
+				time.Sleep(5 * time.Millisecond)
+			}
+		}
+		if !ok {
+			res.Add(fw.Finding{Kind: "monitor", Signature: sig + " no heal", Detail: "calls did not work again after the third connection", Case: c})
+		}
+	}
+	res.Count("silent-after-reconnect")
+	res.Eval(true, []interface{}{"silent-after-reconnect"})
+	return nil
 }
 
 func healthy(d *fw.Driver, res *fw.Result, seed int64, p pt, serverPing time.Duration, base int) error {
@@ -135,6 +204,20 @@ func healthy(d *fw.Driver, res *fw.Result, seed int64, p pt, serverPing time.Dur
 		}
 		outer.Traces += res.Traces
 		outer.Events += res.Events
+	}()
+	// outgoing-only traffic denser than the ping interval all along (notifications get no answer): the
+	// peer's pongs are then the only incoming frames, so the pings must keep going out
+	stopNotes := make(chan struct{})
+	defer close(stopNotes)
+	go func() {
+		for i := 0; ; i++ {
+			select {
+			case <-stopNotes:
+				return
+			case <-time.After(p.P / 3):
+			}
+			cl.Note(base + 1000 + i)
+		}
 	}()
 	// a call several timeouts long, then an idle period, then short calls
 	long := make(chan error, 1)
